@@ -298,3 +298,16 @@ Definition par_search (cf : config) (s : shard) (qa qb : Q) (sched : list bool) 
   let '(a', h1) := th_run (S (ndocs s)) (ndocs s) a h in
   let '(b', _) := th_run (S (ndocs s)) (ndocs s) b h1 in
   (th_acc a', th_acc b').
+
+(** building a match tree while other searches run: before every atom the environment may change the shared
+    state (allocate nodes, move other searches' cursors, add / evict cache entries) *)
+Fixpoint build_env (env : nat -> state -> state) (cf : config) (s : shard) (q : Q) (st : state) (k : nat)
+  : mt * state * nat :=
+  match q with
+  | QAnd a b => let '(ta, st1, k1) := build_env env cf s a st k in
+                let '(tb, st2, k2) := build_env env cf s b st1 k1 in (MAnd ta tb, st2, k2)
+  | QOr a b => let '(ta, st1, k1) := build_env env cf s a st k in
+               let '(tb, st2, k2) := build_env env cf s b st1 k1 in (MOr ta tb, st2, k2)
+  | QNot a => let '(ta, st1, k1) := build_env env cf s a st k in (MNot ta, st1, k1)
+  | atom => let '(t, st1) := build true cf s atom (env k st) in (t, st1, S k)
+  end.
